@@ -577,3 +577,9 @@ package parse
 //@ func (*Tree).Parse
 //@   requires t != nil
 //@   modifies *
+//@ func (Node).ArgPattern
+//@   nopanic
+//@   ensures result == node_argpattern(self)
+//@ func (Node).Argument
+//@   nopanic
+//@ func (Argument).String
